@@ -126,6 +126,9 @@ def map_line(ident, banks, size, ram=False, mirror=None, style="hex"):
 
     lo = 0x8000 if size == 0x8000 else 0
     win = f"{n(lo, 4)}, {n(0xffff, 4)}"
+    if style == "ident0":
+        # the declarations are numbered from 0 instead of 1
+        ident = int(ident) - 1
     s = f".map identifier={ident} bank_range={n(banks[0])}, {n(banks[1])} addr_range={win} mask={n(size, 1)}"
     if mirror:
         s += f" mirror_bank_range={n(mirror[0])}, {n(mirror[1])}"
